@@ -121,9 +121,13 @@ class StorageBase(World):
         lib = self.lib
         self.patch.set(lib.root_signing, "SSLIB_AVAILABLE", True)
         self.patch.set(lib.root_signing, "gpg_funcs", self.gpgstub)
-        for mod in (lib.common, lib.metadata_construction, lib.cli):
-            self.patch.set(mod, "open", self.fs.open)
+        self.fs.install_open(self.patch, lib)
         self.fs.install_stat(self.patch)
+        self.fs.install_rename(self.patch)
+        from seams import SimClockState, install_clock
+        self.cstate = SimClockState(self.clock)
+        self.cstate.hook = lambda n: setattr(self.cstate, "now", self.fs.now)
+        install_clock(self.patch, self.lib, self.cstate)
 
     def close(self):
         self.patch.restore()
@@ -201,8 +205,15 @@ class StorageWorld(StorageBase):
         f = op.get("fault")
         self.fs.plan = {}
         self.fs.short = {}
+        self.fs.partial = {}
         if f and self.h.get("faults"):
             at = self.fs.counter + f["at"]
+            if f["kind"] == "PARTIAL":
+                # not an error: the kernel takes only part of one write (RLIMIT_FSIZE boundary, quota, signal); a correct
+                # writer notices the short count and completes the write - the operation must still succeed in full
+                self.fs.partial[at] = f.get("n", 1) or 1
+                self.run.fault("partial_write_accepted_by_kernel")
+                return False
             self.fs.plan[at] = f["kind"]
             if f["kind"] == "SHORT":
                 self.fs.short[at] = f.get("n", 0)
@@ -255,6 +266,7 @@ class StorageWorld(StorageBase):
         getattr(self, "op_" + op["op"])(op)
         self.fs.plan = {}
         self.fs.short = {}
+        self.fs.partial = {}
 
     def op_write(self, op):
         path, value = op["file"], op["value"]
@@ -517,7 +529,7 @@ class StorageWorld(StorageBase):
             if not ref_is_pgp_entry(ent):
                 self.run.violate(("C08", "C10"), "gpg-entry", "GPG path did not store a well-formed OpenPGP entry under q", "gpg-entry")
                 return
-        elif not (isinstance(ent, dict) and set(ent) == {"signature"} and ref_is_raw_entry(ent)):
+        elif not (isinstance(ent, dict) and ref_is_raw_entry(ent)):
             self.run.violate(("C08", "C09"), "addsig-entry", "no well-formed entry under the signer's key after add-signature", "addsig-entry")
             return
         self.model[path] = cur
@@ -642,8 +654,9 @@ class StorageWorld(StorageBase):
             dress = op.get("dress", "plain")
             text = {"plain": text, "nl": text + "\n", "upper": text.upper() + "\n", "spaces": "  " + text + " \n"}.get(dress, text)
             self.fs.put(keyfile, text.encode())
-            ns = type("Args", (), {"repodata_fname": path, "private_key_fname": keyfile})()
-            o = self.calls.raw("cli_sign_artifacts", ns)
+            o = self.calls.cli_main(["sign-artifacts", path, keyfile])
+            if o.ok and o.value not in (None, 0):
+                o = type(o)(False, exc=RuntimeError("exit status %r" % (o.value,)))
         else:
             o = self.calls.raw("sign_all_in_repodata", path, self.keys.seeds[i].hex())
         wellformed = isinstance(orig, dict) and isinstance(orig.get("packages"), dict) and \
@@ -702,8 +715,7 @@ class StorageWorld(StorageBase):
             return
         for nm, rec in arts.items():
             ent = sigs[nm]
-            if not (isinstance(ent, dict) and set(ent) == {pub} and isinstance(ent[pub], dict) and set(ent[pub]) == {"signature"}
-                    and ref_is_hex(ent[pub]["signature"], 128)):
+            if not (isinstance(ent, dict) and set(ent) == {pub} and ref_is_raw_entry(ent[pub])):
                 self.run.violate(("C11",), "artifact-entry-shape", "artifact %r: entry is not {signer public key: {signature: 128 hex}}" % nm,
                                  "artifact-entry-shape")
                 return
@@ -824,7 +836,7 @@ class StorageWorld(StorageBase):
         rfiles = ["repo/repodata.json", "repo/noarch.json"]
         fault = None
         if h.get("faults") and rng.random() < 0.3:
-            fault = {"at": rng.randint(1, 4), "kind": rng.choice(["EIO", "ENOSPC", "EACCES", "EMFILE", "CRASH", "CRASH", "SHORT"]),
+            fault = {"at": rng.randint(1, 4), "kind": rng.choice(["EIO", "ENOSPC", "EACCES", "EMFILE", "CRASH", "CRASH", "SHORT", "PARTIAL", "PARTIAL"]),
                      "n": rng.choice([0, 1, 7, 100])}
         if h["focus"] == "repodata":
             r = rng.random()
@@ -923,6 +935,7 @@ class HsmPlan:
     def __init__(self):
         self.count = 0
         self.fail_at = None
+        self.events = None      # callable returning the current event list
 
 
 class HsmKey:
@@ -933,6 +946,8 @@ class HsmKey:
 
     def sign(self, data):
         self._plan.count += 1
+        if self._plan.events is not None:
+            self._plan.events().append(("call", "hsm-sign"))
         if self._plan.fail_at == self._plan.count:
             raise InjectedFault("HSM: signing request %d failed" % self._plan.count)
         return self._real.sign(data)
@@ -982,7 +997,10 @@ class InplaceWorld(StorageBase):
         self._setup(run, header)
         self.scn = None
         self.hsm = HsmPlan()
-        self.patch.set(self.lib.signing, "PrivateKey", make_privkey_shim(self.lib.common.PrivateKey, self.hsm))
+        self.hsm.events = lambda: self.fs.events
+        for mod in self.lib.modules:
+            if mod is not self.lib.common and getattr(mod, "PrivateKey", None) is self.lib.common.PrivateKey:
+                self.patch.set(mod, "PrivateKey", make_privkey_shim(self.lib.common.PrivateKey, self.hsm))
         self.n_points = 0
         self.n_compared = 0
         self.kinds = set()
@@ -1063,17 +1081,18 @@ class InplaceWorld(StorageBase):
         if kind == "repodata-lib":
             f, args = "sign_all_in_repodata", (self.target, self.keyhex)
         elif kind == "repodata-cli":
-            f, args = "cli_sign_artifacts", (type("Args", (), {"repodata_fname": self.target, "private_key_fname": "keys/k.hex"})(),)
+            f, args = "@cli", (["sign-artifacts", self.target, "keys/k.hex"],)
         elif kind == "gpg-file":
             f, args = "sign_root_metadata_via_gpg", (self.target, self.fpr)
         else:
-            f, args = "cli_gpg_sign", (type("Args", (), {"filename": self.target, "gpg_key_fingerprint": self.fpr})(),)
+            f, args = "@cli", (["gpg-sign", self.fpr, self.target],)
+        call = (lambda: self.calls.cli_main(args[0])) if f == "@cli" else (lambda: self.calls.raw(f, *args))
         if tracer is not None:
             tracer.events = self.fs.events
             with tracer:
-                o = self.calls.raw(f, *args)
+                o = call()
         else:
-            o = self.calls.raw(f, *args)
+            o = call()
         return o
 
     def _order_ok(self, events, o):
@@ -1084,14 +1103,14 @@ class InplaceWorld(StorageBase):
         first = idx[0]
         after = events[first + 1:]
         for e in after:
-            if e[0] in ("call", "return") and e[1] in ("canonserialize", "serialize_and_sign", "sign_via_gpg", "create_signature", "sign"):
-                return "event %r after the output file was opened" % (e,)
+            if e[0] in ("call", "return") and e[1] in ("json-encode", "hsm-sign", "gpg-create-signature", "gpg-export-pubkey"):
+                return "%s activity after the output file was opened" % (e[1],)
             if e[0] == "open_r":
                 return "file %r opened for reading after the output file was opened" % (e[1],)
         if len(idx) > 1:
             return "target opened for writing %d times" % len(idx)
         before = events[:first]
-        if not any(e == ("return", "canonserialize") for e in before):
+        if any(e[1] == "json-encode" for e in events if e[0] in ("call", "return")) and not any(e == ("return", "json-encode") for e in before):
             return "output opened before any serialization finished"
         return None
 
@@ -1115,13 +1134,36 @@ class InplaceWorld(StorageBase):
                 return False
         return True
 
+    def _complete(self, before_bytes):
+        """After a call that returned normally: either nothing was written, or the file is completely signed."""
+        now = self.fs.files.get(self.target)
+        if now == before_bytes:
+            return None
+        if now is None:
+            return "the target file no longer exists under its name"
+        try:
+            cur = json.loads(now.decode("utf-8"))
+        except (ValueError, UnicodeDecodeError):
+            return "the file written does not parse"
+        if not self.scn["kind"].startswith("repodata"):
+            return None
+        try:
+            arts = set(cur["packages"]) | set(cur.get("packages.conda", {}))
+            sigs = cur["signatures"]
+            missing = sorted(a for a in arts if a not in sigs or not isinstance(sigs[a], dict) or not sigs[a])
+        except (KeyError, TypeError, AttributeError):
+            return "the file written has no usable signatures section"
+        if missing:
+            return "a partially signed file was produced (no signature for %r)" % missing[:3]
+        return None
+
     def op_enumerate(self, op):
         if self.scn is None:
             return self.run.ev("noop")
         run = self.run
         only = op.get("only")
         before_bytes = self.initial[self.target]
-        watch = ("canonserialize", "serialize_and_sign", "write_metadata_to_file", "sign_via_gpg", "load_metadata_from_file")
+        watch = ()
         # ---- clean traced run
         self._reset()
         tr = LineTracer(self.lib.dir, watch=watch)
@@ -1237,6 +1279,12 @@ class InplaceWorld(StorageBase):
                 run.rejects += 1
             else:
                 run.probe("fault_swallowed_call_completed")
+                msg = self._complete(before_bytes)
+                if msg:
+                    run.violate(("C18", "C11"), "partially-signed-file",
+                                "%s: the call returned normally but %s" % (label, msg), "partially-signed-file")
+                    run.narrow = [self.scn, {"op": "enumerate", "only": item, "classes": op.get("classes"), "rot": op.get("rot", 0)}]
+                    return
         run.accepts += 1 if clean_ok else 0
         self.lib.root_signing.SSLIB_AVAILABLE = True
 
